@@ -31,6 +31,10 @@ def shadowed(rng, b):
     # a decoy that would change the output if it were picked: an empty-ish component with other ports
     b2.texts[os.path.join(decoy_dir, base)] = "declare component Decoy: ->\nsequence q = \"3N\"\nstrand Q = q\n"
     b2.includes = b2.includes + [decoy_dir]
+    # a decoy beside the TOP importer for a template that a library system imports from its own directory by bare
+    # name: the importing file's directory comes first, so the decoy must be ignored
+    if os.path.dirname(p) and not os.path.exists(base) and base not in b2.texts:
+        b2.texts[base] = "declare component Decoy2: ->\nsequence q = \"2S\"\nstrand Q = q\n"
     return b2
 
 
@@ -44,7 +48,7 @@ def run(st, tier, seed):
     n = 120 if tier == "quick" else 3000
     bundles = []
     for i in range(n):
-        b = progen.gen_system_bundle(rng, depth=rng.randint(1, 3 if tier == "quick" else 4), size=rng.choice([3, 5, 8]),
+        b = progen.gen_system_bundle(rng, depth=rng.choice([1, 2, 2, 3, 3] if tier == "quick" else [1, 2, 3, 3, 4]), size=rng.choice([3, 5, 8]),
                                      n_templates=rng.randint(1, 3))
         if b is None:
             continue
@@ -54,6 +58,6 @@ def run(st, tier, seed):
             if b2 is not None:
                 res.count("decoy-later-in-search-path")
                 bundles.append(("s%d-decoy" % i, b2))
-    compile_check.run_bundles(st, res, bundles, "C02", "system")
+    compile_check.run_bundles(st, res, bundles, "C02", "system", must_accept=True)
     res.programs = len(bundles)
     return res
